@@ -425,7 +425,13 @@ def check_validation_formulas(ctx, F, tag):
     ctx.ob("C19.R2.div-round-up-formula", "bits::div_round_up" + tag, loc(dru.raw["span"]), okdru, "formula", "div_round_up(v, n) = %s (the builders' (v + n - 1) / n)" % tstr(dru.term_of_local(0)), nontrivial=False)
     found = {}
     from guards import edge_facts
-    for u, v, f in edge_facts(lb):
+    # the comparisons the loader branches on: directly (`if a != b`), or computed into a flag first (`opt.is_some_and(|v| a != b)`)
+    tests = [(u, v, f) for u, v, f in edge_facts(lb)]
+    for bi, si, st in lb.stmts():
+        if st["s"] == "assign" and st["rv"]["r"] == "bin" and st["rv"]["op"] == "Ne" and not st["lhs"]["p"]:
+            tt = lb.term_of_rvalue(st["rv"])
+            tests.append((bi, bi, ("cmp", "Ne", tt[2], tt[3])))
+    for u, v, f in tests:
         if f[0] == "cmp" and f[1] == "Ne":
             for x, y in ((f[2], f[3]), (f[3], f[2])):
                 x0, y0 = core(x), core(y)
